@@ -673,16 +673,30 @@ func c14GenC(r *core.Rng, idx int) c14Case {
 		{target: "dv-cont", kind: "add", props: []*yang.Stmt{yang.S("default", "x")}, forbid: true, what: "add default to a container"},
 		{target: "dv-bare", kind: "add", props: []*yang.Stmt{yang.S("min-elements", "1")}, forbid: true, what: "add min-elements to a leaf"},
 	}
+	devs = append(devs, dev{target: "dv-bare", kind: "add", props: []*yang.Stmt{yang.S("units", "u2"), yang.S("default", "dd"), yang.S("must", "5 = 5")}, what: "add units, default and a must",
+		edit: func(t, p *yang.Stmt) { t.Add(yang.S("units", "u2"), yang.S("default", "dd"), yang.S("must", "5 = 5")) }})
 	d := devs[(idx/3)%len(devs)]
 	dv := yang.S("deviate", d.kind)
 	for _, pr := range d.props {
 		dv.Add(pr.Clone())
+	}
+	var dv2 *yang.Stmt
+	if len(d.props) >= 2 && d.extraDv == nil && r.Bool() {
+		// the same properties in two deviate statements of the same kind within the one deviation
+		dv = yang.S("deviate", d.kind, d.props[0].Clone())
+		dv2 = yang.S("deviate", d.kind)
+		for _, pr := range d.props[1:] {
+			dv2.Add(pr.Clone())
+		}
 	}
 	dpath := base + d.target
 	if d.abs {
 		dpath = "/" + pf + ":" + d.target
 	}
 	deviation := yang.S("deviation", dpath, dv)
+	if dv2 != nil {
+		deviation.Add(dv2)
+	}
 	if d.extraDv != nil {
 		deviation.Add(d.extraDv)
 	}
